@@ -103,6 +103,15 @@ def run(prop, tier, seed, known):
     pairs = [(np.array(x[:2 * (len(x) // 2)]).reshape(-1, 2), np.array(y[:2 * (len(y) // 2)]).reshape(-1, 2)) for x, y in zip(arrs('any'), arrs('any'))]
     admit('numpy.unique(concatenate 2-D)', b_unique2, [((x, y), np.unique(np.concatenate([x, y], axis=0))) for x, y in pairs])
 
+    # np.argmax / np.argmin of a non-empty array (first position of the extreme cell; ties included)
+    for nm, f in (('numpy.argmax', np.argmax), ('numpy.argmin', np.argmin)):
+        def b_arg(eng, st, nm=nm):
+            a = sym_array(st, 'a')
+            outs = [(v, s_) for v, s_ in L[nm](eng, st, [a], {}) if type(v).__name__ != 'Raised']
+            assert len(outs) == 1
+            return [a], outs[0][0], outs[0][1]
+        admit(nm, b_arg, [((x,), int(f(x))) for x in arrs('nonempty', 0, 1)])
+
     # np.searchsorted (array of values), both sides
     for side in ('left', 'right'):
         def b_ss(eng, st, side=side):
@@ -182,7 +191,7 @@ def run(prop, tier, seed, known):
     for k in range(1, 6):
         STOP[0] = k - 0.5
         admit('numpy.arange(0, n - 1/2, 1/2)', b_arange, [((), np.arange(0, k - 0.5, 0.5))])
-    bounded = [dict(name='symbolic NumPy models admit the real library behaviour (unique, searchsorted, max, min, diff, concatenate, boolean mask, step slice, interp, axis min, float arange)',
+    bounded = [dict(name='symbolic NumPy models admit the real library behaviour (unique, argmax, argmin, searchsorted, max, min, diff, concatenate, boolean mask, step slice, interp, axis min, float arange)',
                     bound='%d concrete instances on a 1/4 lattice (arrays of length <= 4), satisfiability of model facts with the library result' % n, cases=n, exhaustive=False, outcomes=stats,
                     failures=fails[:4], wall_s=round(time.time() - t0, 2))]
     results = []
